@@ -122,11 +122,11 @@ Definition ok_prefix (p : str) : bool :=
   negb (prefixb c_sel_sparql_kw p).
 
 Definition ok_local (p l : str) : bool :=
-  word l && negb (contains (p ++ Str ":") l) && negb (suffixb (Str ">") (Str ":" ++ l)).
+  nospace l && negb (contains (p ++ Str ":") l) && negb (suffixb (Str ">") (Str ":" ++ l)).
 
 (** an IRI that ends up as a class / node / predicate identifier *)
 Definition ok_iri (i : str) : bool :=
-  word i && negb (str_eqb i []) && negb (prefixb (Str "<") i) && negb (prefixb (Str "_:") i).
+  nospace i && negb (str_eqb i []) && negb (prefixb (Str "<") i) && negb (prefixb (Str "_:") i).
 
 Definition wf_node (n : node) : bool :=
   match nk n with
@@ -175,7 +175,7 @@ Definition is_wild (f : fterm) : bool := match f with FWild => true | _ => false
 
 (** the text of a SPARQL selector as the parser needs it *)
 Definition ok_query (wf : str -> bool) (q : str) : bool :=
-  nochar "@"%char q && nochar (ascii_of_nat 10) q && negb (contains c_sel_sparql_kw q) &&
+  nochar (ascii_of_nat 10) q && negb (contains c_sel_sparql_kw q) &&
   wf q &&
   (let head := slice_to q (find (Str "{") q) in
    contains (Str "select") (lower head) && Nat.eqb (count_char "?"%char head) 1).
@@ -193,8 +193,14 @@ Definition is_iri_obj (x : obj) : bool :=
 
 Definition is_angle (r : iriref) : bool := match r with Angle _ => true | _ => false end.
 
+(** a label: bracketed or prefixed, without '@' (the item is split at its last
+    '@'), at least two characters long *)
+Definition ok_label (ns : nsdict) (pd : pdict) (r : iriref) : bool :=
+  ok_ref ns pd false r && nochar "@"%char (show_ref r) && negb (Z.ltb (len (show_ref r)) 2) &&
+  negb (suffixb (Str ",") (show_ref r)).
+
 Definition ok_item (ns : nsdict) (pd : pdict) (orc : oracles) (G : graph) (it : item) : bool :=
-  is_angle (it_label it) && ok_ref ns pd false (it_label it) &&
+  ok_label ns pd (it_label it) &&
   ok_selector ns pd (o_wf orc) (it_sel it) &&
   forallb is_iri_obj (selects_list ns (o_ans orc) G (it_sel it)).
 
@@ -229,13 +235,13 @@ Definition C10_dom (tg : target) (orc : oracles) (G : graph) : bool :=
         | None => false
         end
    else true) &&
-  (* shape-map items: bracketed labels, well-formed selectors, IRI answers only *)
+  (* shape-map items: well-formed labels and selectors, IRI answers only *)
   match t_items tg with
   | None => true
   | Some its => forallb (ok_item ns pd orc G) its
   end.
 
-(** ** counts: each node is selected once per label *)
+(** ** counts: no statement of the document is repeated *)
 
 Fixpoint nodup_objs (l : list obj) : bool :=
   match l with
@@ -256,8 +262,7 @@ Definition item_labels (tg : target) : list str :=
   end.
 
 Definition C10_dom_count (tg : target) (orc : oracles) (G : graph) : bool :=
-  C10_dom tg orc G && nodup_graph G &&
-  forallb (fun l => nodup_objs (label_answers tg (o_ans orc) G l)) (item_labels tg).
+  C10_dom tg orc G && nodup_graph G.
 
 (** ** root causes outside the domain (known findings) *)
 
@@ -268,26 +273,15 @@ Definition rc_nonIri_answer (tg : target) (orc : oracles) (G : graph) : bool :=
   | Some its => existsb (fun it => negb (forallb is_iri_obj (selects_list (t_ns tg) (o_ans orc) G (it_sel it)))) its
   end.
 
-(** F2: a prefixed label *)
-Definition rc_prefixed_label (tg : target) : bool :=
-  match t_items tg with
-  | None => false
-  | Some its => existsb (fun it => match it_label it with Pref _ _ => true | _ => false end) its
-  end.
-
-(** F3: fixed syntax, '@' inside a selector or a label *)
-Definition rc_at_in_item (tg : target) (fmt : smfmt) : bool :=
+(** F8 (what is left of F3): fixed syntax, '@' inside a label *)
+Definition rc_at_in_label (tg : target) (fmt : smfmt) : bool :=
   match fmt, t_items tg with
-  | FmtFixed, Some its =>
-    existsb (fun it => negb (nochar "@"%char (show_selector (it_sel it))) ||
-                       negb (nochar "@"%char (show_ref (it_label it)))) its
+  | FmtFixed, Some its => existsb (fun it => negb (nochar "@"%char (show_ref (it_label it)))) its
   | _, _ => false
   end.
 
-(** F4: a node answered more than once for one label, or a repeated statement *)
-Definition rc_repeated_answer (tg : target) (orc : oracles) (G : graph) : bool :=
-  negb (nodup_graph G) ||
-  negb (forallb (fun l => nodup_objs (label_answers tg (o_ans orc) G l)) (item_labels tg)).
+(** F7 (what is left of F4): a repeated statement (counted twice by the class trackers) *)
+Definition rc_repeated_statement (G : graph) : bool := negb (nodup_graph G).
 
 (** F6: a literal object of the instantiation property (all_classes_mode: the
     tracker raises; otherwise the profiler raises once the subject is an instance) *)
